@@ -124,15 +124,12 @@ def ob_commit(ctx, f, v, blocks):
     pp = ctx.prog.fns.get(CORE + "round1::preprocess")
     if not pp:
         return False
-    lr = loop_report(ctx.prog, pp)
-    if len(lr) != 1:
-        return False
-    lp = lr[0]
-    names = pp.var_names()
-    pushed = {names.get(l) for l, s in lp["skippable"].items() if not s}
-    rng_ok = lp["iter_term"] is not None and mentions(lp["iter_term"], lambda s: s[0] == "agg" and (s[2] or "").endswith("Range")
-                                                      and dict(s[4]).get("start") == ("const", "u8", 0) and dict(s[4]).get("end") == ("arg", 1))
-    return ok and {"signing_nonces", "signing_commitments"} <= pushed and rng_ok and not any(c == "break" for _, c in lp["exits"])
+    pv = FnView.get(ctx.prog, pp)
+    ps = paired_sequences(ctx.prog, pp, pv, pv.cx.local(0))     # one pair per element of 0..num_nonces (loop or map+unzip)
+    src = ps["source"] if ps else None
+    rng_ok = ps is not None and src[0] == "agg" and (src[2] or "").endswith("Range") and \
+        dict(src[4]).get("start") == ("const", "u8", 0) and dict(src[4]).get("end") == ("arg", 1)
+    return ok and rng_ok
 
 
 def ob_default_identifiers(ctx, f, v, blocks):
